@@ -37,6 +37,18 @@ def build_polygon(s, name=None):
         poly = parts[0].difference(*parts[1:], name=name)
     else:
         poly = tdgl.Polygon(name, points=shape_points(s))
+    if s.get("dedupe"):
+        import tdgl
+
+        pts = np.asarray(poly.points)[:-1]
+        scale_ = float(np.ptp(pts, axis=0).max())
+        keep = [0]
+        for k_ in range(1, len(pts)):
+            if np.hypot(*(pts[k_] - pts[keep[-1]])) > 1e-9 * scale_:
+                keep.append(k_)
+        if len(keep) > 1 and np.hypot(*(pts[keep[-1]] - pts[keep[0]])) <= 1e-9 * scale_:
+            keep.pop()
+        poly = tdgl.Polygon(name, points=pts[keep])
     if s.get("resample"):
         poly = poly.resample(int(s["resample"]))
     if s.get("buffer") is not None:
@@ -201,6 +213,10 @@ def gen_device(rng, n_terminals=2, n_holes=0, probes=2, size="small", film_kind=
                 {"kind": "box", "w": W, "h": H * 0.4, "points": npts, "center": [0.0, -0.3 * H]},
                 {"kind": "box", "w": W * 0.35, "h": H, "points": npts, "center": [-0.325 * W, 0.0]},
             ],
+            # (the raw union keeps the doubled corner vertices of box(): on some draws Triangle then runs into internal errors and
+            # allocates without bound - a third-party failure before any property is in play; an outline without (near-)repeated
+            # vertices avoids it)
+            "dedupe": True,
         }
     else:
         raise ValueError(film_kind)
